@@ -63,7 +63,10 @@ SELFTEST_TRACE = [
     (_sev("end", r=2), None),
     (_sev("begin", r=3), None),
     (_sev("acquire", 1, 3, 2, False), "NoCarryOver.WrongWriter"),
-    (_sev("acquire", 3, 3, 3, False), "OneOwner.SecondAcquire"),
+    (_sev("acquire", 3, 3, 2, False), ["NoCarryOver.WrongWriter", "OneOwner.SecondAcquire"]),
+    (_sev("acquire", 6, 3, -1, False), None),                  # a block rendered into a component's own writer: legitimate
+    (_sev("flush", 6, 3, -1), None),
+    (_sev("release", 6, 3, -1), None),
     (_sev("existing", 4, 3, 3), "ExclusiveBuffer.UseNotHeld"),
     (_sev("release", 1, 3, 3), None),
     (_sev("flush", 1, 3, 3), "ExclusiveBuffer.UseAfterRelease"),
@@ -88,13 +91,15 @@ SELFTEST_TRACE = [
     (_sev("end", r=7), None),
 ]
 SELFTEST_CLEAN = [_sev("begin", r=1), _sev("acquire", 1, 1, 1, False), _sev("existing", 1, 1, 1), _sev("get", 2, 1, dirty=False),
+                  _sev("acquire", 3, 1, -1, False), _sev("existing", 3, 1, -1), _sev("flush", 3, 1, -1), _sev("release", 3, 1, -1),
                   _sev("put", 2, 1, dirty=False), _sev("flush", 1, 1, 1), _sev("release", 1, 1, 1), _sev("end", r=1),
                   _sev("begin", r=2), _sev("acquire", 1, 2, 2, False), _sev("flush", 1, 2, 2), _sev("release", 1, 2, 2), _sev("end", r=2)]
 
 
 def trace_selftest(ck, cfgtext):
     """Every violation kind of the trace spec must fire at exactly the planted lines, whatever other events surround it."""
-    want = [{"line": i + 1, "kind": k} for i, (_, k) in enumerate(SELFTEST_TRACE) if k]
+    want = [{"line": i + 1, "kind": k} for i, (_, ks) in enumerate(SELFTEST_TRACE) if ks
+            for k in ([ks] if isinstance(ks, str) else ks)]
     bad = "".join(json.dumps(e) + "\n" for e, _ in SELFTEST_TRACE)
     st = vlib.tlc("TraceRenderPool", "t.cfg", workers=1, timeout=300, files={"t.cfg": cfgtext, "trace.ndjson": bad})
     rep = st.tagged("TRACE")
